@@ -10,13 +10,19 @@ OPS = {
     "CT": {"sql": "create table t(k int primary key, v int)"},
     "I1": {"sql": "insert into t values (1,10),(2,20)"},
     "I2": {"sql": "insert into t values (3,30),(2,21)"},
+    "I3": {"sql": "insert into t values (10,1),(11,1),(12,1),(13,1),(14,1),(15,1)"},      # a six-row row-set: its delete vector is longer than a one-row one
     "D": {"sql": "delete from t where k = 2"},
     "DA": {"sql": "delete from t"},            # every row: a later compaction produces no row-set, only DeleteDV/DeleteRowSet records
     "DT": {"sql": "drop table t"},
     "C": {"op": "compact"},
     "R": {"op": "reopen"},
 }
-POST = ["insert into t values (90,90)", "delete from t where k = 1"]
+# (the deletes of the post script hit single rows of row-sets whose interrupted delete vector, if any, covered more rows)
+# (ONE delete statement: a delete that matches nothing would still consume a delete-vector id and hide id re-use)
+POST = ["insert into t values (90,90)", "delete from t where k = 1 or k = 11"]
+# second post-recovery script, without the insert: a second row-set would be merged with the first by the compaction that runs
+# before the shutdown, and the delete vector written after recovery would never be read back from its file
+POST_B = ["delete from t where k = 1 or k = 11"]
 
 
 def model(ops):
@@ -32,6 +38,8 @@ def model(ops):
                 st = st + [(1, 10), (2, 20)]
             elif o == "I2":
                 st = st + [(3, 30), (2, 21)]
+            elif o == "I3":
+                st = st + [(k, 1) for k in range(10, 16)]
             elif o == "D":
                 st = [r for r in st if r[0] != 2]
             elif o == "DA":
@@ -44,7 +52,7 @@ def valid(h):
     for o in h:
         if o == "CT" and st is not None:
             return False
-        if o in ("I1", "I2", "D", "DA", "DT") and st is None:
+        if o in ("I1", "I2", "I3", "D", "DA", "DT") and st is None:
             return False
         if o == "CT":
             st = []
@@ -65,9 +73,12 @@ def histories(tier):
         # two fully deleted row-sets, compacted away, then reopened and written again (row-set ids are re-issued)
         churn = ["CT", "I1", "I2", "D", "DA"]        # (two delete vectors per row-set)
         out += [churn + t for t in (["C"], ["C", "R"], ["C", "I1"], ["C", "R", "R", "I1"], ["R", "C"], ["DT"])]
+        # an interrupted delete of many rows followed (after recovery) by a delete of one row of the same row-set
+        out += [["CT", "I3", "DA"], ["CT", "I1", "I3", "DA"], ["CT", "I3", "D", "DA"], ["CT", "I3", "I1", "DA", "C"]]
     else:
         prefixes = [[], ["CT", "I1"], ["CT", "I1", "I2", "D"], ["CT", "I1", "I2", "C"], ["CT", "I1", "I2", "D", "DA"], ["CT", "I1", "I2", "D", "DA", "C", "R"]]
         tails = [list(t) for n in (1, 2, 3) for t in itertools.product(["CT", "I1", "I2", "D", "DA", "DT", "C", "R"], repeat=n)]
+        prefixes += [["CT", "I3"], ["CT", "I1", "I3"]]
     seen = set()
     for p in prefixes:
         for t in tails:
@@ -85,8 +96,9 @@ def rows(r):
     return sorted(U.decode(r)) if U.is_rows(r) else None
 
 
-def judge_group(h, g):
+def judge_group(h, g, post_script=None):
     """returns None if fine, else (sig, detail)"""
+    post_script = post_script or POST
     if "nested_mismatch" in g:
         return "crash-during-recovery-changes-state", g["nested_mismatch"]
     o = g["obs"]
@@ -117,10 +129,10 @@ def judge_group(h, g):
         if any(U.status(p) != "err:bind" for p in post):
             return "post-recovery-statement-on-absent-table", post
         return None
-    for sql, p in zip(POST, post):
+    for sql, p in zip(post_script, post):
         if U.status(p) != "rows":
             return "post-recovery-statement-fails", {"stmt": sql, "result": p}
-    want = sorted([r for r in m + [(90, 90)] if r[0] != 1])
+    want = sorted([r for r in m + ([(90, 90)] if post_script is POST else []) if r[0] not in (1, 11)])
     if rows(after["t"]) != want:
         return "post-recovery-state-wrong", {"got": after["t"], "want": want}
     if not isinstance(reopened, dict) or "open_panic" in reopened:
@@ -130,11 +142,11 @@ def judge_group(h, g):
     return None
 
 
-def job(h, tier, idx):
+def job(h, tier, idx, post=None):
     nested = "none"
-    if tier == "thorough" or idx % 8 == 0:
+    if (tier == "thorough" or idx % 8 == 0) and post is None:
         nested = "boundaries"
-    return {"id": h, "opts": {"block": 64, "rowset": 1 << 20}, "ops": [OPS[o] for o in h], "tables": ["t"], "post": POST,
+    return {"id": h, "opts": {"block": 64, "rowset": 1 << 20}, "ops": [OPS[o] for o in h], "tables": ["t"], "post": post or POST,
             "nested": nested, "prefix_step": 4 if tier == "quick" else 1, "nested_step": 16 if tier == "quick" else 4}
 
 
@@ -145,10 +157,12 @@ def run(tier, seed):
                      "(dir create, column/index/DV file write+fsync, manifest append, manifest rewrite tmp/rename, boot and background vacuum unlink) x every byte prefix of manifest writes "
                      f"(data files every {4 if tier == 'quick' else 1} bytes); recovery + post script + second reopen; crash points of the recovery itself one level deep for "
                      f"{'all' if tier == 'thorough' else 'every 8th'} histories at write boundaries. a case = (history, crash state group); non-trivial = the write in flight is torn (neither empty nor complete)", seed)
-    jobs = [job(h, tier, i) for i, h in enumerate(hs)]
+    # histories with a delete are recovered under both post-recovery scripts
+    runs = [(h, POST) for h in hs] + [(h, POST_B) for h in hs if "D" in h or "DA" in h]
+    jobs = [job(h, tier, i, None if ps is POST else ps) for i, (h, ps) in enumerate(runs)]
     res = runner.run_many("crash", jobs, timeout=3600, progress=20)
     tot_states = tot_nested = tot_points = tot_torn = 0
-    for h, r in zip(hs, res):
+    for (h, ps), r in zip(runs, res):
         if r.get("abort"):
             chk.fail(core.case_id({"history": h}), "abort", {"history": h}, r)
             continue
@@ -162,9 +176,11 @@ def run(tier, seed):
             chk.machinery(f"history {h}: an operation failed in the recorded run: {bad_ops[0]}")
             continue
         for g in r["groups"]:
-            v = judge_group(h, g)
+            v = judge_group(h, g, ps)
             case = {"history": h, "acked": g["acked"], "inflight": g["inflight"], "crash_states": g["examples"]}
-            cid = core.case_id({"history": h, "at": g["examples"][0]})
+            if ps is POST_B:
+                case["post"] = "delete-only"
+            cid = core.case_id({"history": h, "at": g["examples"][0], "post": "B"} if ps is POST_B else {"history": h, "at": g["examples"][0]})
             torn = any("+" in e and e.split("+")[-1].split("/")[0] not in ("0", e.split("/")[-1]) for e in g["examples"])
             chk.evaluations += g["count"] - 1      # every crash state of the group was recovered and judged
             if v:
